@@ -160,28 +160,27 @@ class Runner(object):
             self.violation(fmt, "pc", loader, "%s: the program counter after loading is %s, the file's entry point is %#x"
                            % (loader, hex(rpc) if isinstance(rpc, int) else rpc, entry), case, rpc, task["pc"], entry,
                            theorem + " (pc = entry)")
+        # what reaches the disassembler must be a prefix of what the memory holds at a, a+1, … (theorem fetch_window):
+        # nothing behind a relocation slot or an unmapped byte may be glued to the bytes before it
+        for (a, n) in fetch:
+            w = L.window(a, names, n)
+            if not (w and w[0] == "raw"):
+                continue
+            wb = bytes.fromhex(w[1])
+            mem = R.unchunk(L.chunks(a, max(n, len(wb)), names))
+            if len(wb) > n or any(mem[k] != wb[k] for k in range(len(wb))):
+                ok = False
+                k = next((k for k in range(min(len(wb), len(mem))) if mem[k] != wb[k]), n)
+                self.violation(fmt, "fetch-window", loader,
+                               "%s: read_instruction(%#x) hands %s to the disassembler, but the memory at %#x holds %s "
+                               "(byte %d of the window is not the byte at %#x)"
+                               % (loader, a, wb.hex(), a, short(mem[:len(wb) + 1], 120), k, a + k),
+                               dict(case, address=a), wb.hex(), None, short(mem[:len(wb) + 1]), "Amoco.Loader.Props.fetch_window")
+                break
         if loadable and facts is not None:
             img = O.Image(facts)
-            for (va, n, kind) in img.extents():
-                if n > RANGE_CAP:
-                    n = RANGE_CAP
-                exp = img.expected(va, n) if not later_wins else img.expected_later_wins(va, n)
-                got = R.unchunk(L.chunks(va, n, names))
-                bad = O.judge(exp, got, names)
-                if bad is not None:
-                    ok = False
-                    i, aspect, e_, g_ = bad
-                    mod = None
-                    if not model.get("empty"):
-                        for (a, n_), mch in zip(ranges, model["image"]):
-                            if a <= va + i < a + n_:
-                                mod = short(R.unchunk(mch)[max(0, va + i - 4 - a):va + i + 12 - a])
-                    self.violation(fmt, aspect, loader,
-                                   "%s: byte at %#x (%s extent at %#x+%d) reads %s, the file's mapping gives %s"
-                                   % (loader, va + i, kind, va, i, short(g_, 60), short(e_, 60)),
-                                   dict(case, address=va + i), short(got[max(0, i - 4):i + 12]), mod,
-                                   short([x[1] if x and x[0] in "bz" else x for x in exp[max(0, i - 4):i + 12]]), theorem)
-                    break
+            if not self.judge_bytes(fmt, loader, case, L, names, img, theorem, later_wins, model, ranges):
+                ok = False
             # the model must satisfy the declared mapping too (the theorem's reading of the property)
             if not model.get("empty"):
                 for (a, n), mch in zip(ranges, model["image"]):
@@ -226,8 +225,62 @@ class Runner(object):
                     ck.count("fetch.%s" % (ins[0] if isinstance(ins, tuple) else "other"))
         return ok
 
+    def judge_bytes(self, fmt, loader, case, L, names, img, theorem, later_wins=False, model=None, ranges=()):
+        """the real memory against the declared mapping, extent by extent; reports the first contradicting byte."""
+        for (va, n, kind) in img.extents():
+            if n > RANGE_CAP:
+                n = RANGE_CAP
+            exp = img.expected(va, n) if not later_wins else img.expected_later_wins(va, n)
+            got = R.unchunk(L.chunks(va, n, names))
+            bad = O.judge(exp, got, names)
+            if bad is not None:
+                i, aspect, e_, g_ = bad
+                mod = None
+                if model is not None and model.get("task") and not model.get("empty"):
+                    for (a, n_), mch in zip(ranges, model["image"]):
+                        if a <= va + i < a + n_:
+                            mod = short(R.unchunk(mch)[max(0, va + i - 4 - a):va + i + 12 - a])
+                self.violation(fmt, aspect, loader,
+                               "%s: byte at %#x (%s extent at %#x+%d) reads %s, the file's mapping gives %s"
+                               % (loader, va + i, kind, va, i, short(g_, 60), short(e_, 60)),
+                               dict(case, address=va + i), short(got[max(0, i - 4):i + 12]), mod,
+                               short([x[1] if x and x[0] in "bz" else x for x in exp[max(0, i - 4):i + 12]]), theorem)
+                return False
+        return True
+
     # -- ELF ---------------------------------------------------------------------------------------------
     def elf(self, data, ps, tag, meta=None, path=None, aslr=False):
+        """one ELF case; when it ends with a disagreement between code and model for which the oracle has no failing
+        input on the image itself, the search continues on the single-segment variants of the image (all other PT_LOAD
+        entries turned into PT_NULL): there every segment is isolated, hence judged by the oracle."""
+        n0, v0 = len(self.corr), self.nviol
+        self.elf_(data, ps, tag, meta, path, aslr)
+        if self.nviol > v0:
+            del self.corr[n0:]               # the oracle produced a failing input on this very case
+            return
+        if len(self.corr) == n0 or tag.endswith(":variant"):
+            return
+        import struct
+        e = O.elf_read(data)
+        idx = [k for k, p in enumerate(e.phdrs) if p["type"] == O.PT_LOAD]
+        if len(idx) < 2:
+            return
+        self.ck.count("elf.failing-input-search.variants")
+        n1 = len(self.corr)
+        for keep in idx[:4]:
+            b = bytearray(data)
+            for k in idx:
+                if k != keep:
+                    struct.pack_into(e.o + "I", b, e.phoff + k * e.phentsize, 0)
+            self.elf_(bytes(b), ps, "%s:only-segment-%d:variant" % (tag, keep), meta, None, aslr)
+            if self.nviol > v0:
+                break
+        del self.corr[n1:]
+        if self.nviol > v0:
+            del self.corr[n0:]               # a failing input was found on a variant of this image
+            self.ck.count("disagreement.with-failing-input-on-a-variant")
+
+    def elf_(self, data, ps, tag, meta=None, path=None, aslr=False):
         ck, drv = self.ck, self.drv
         self.n += 1
         e = O.elf_read(data)
@@ -273,7 +326,11 @@ class Runner(object):
         if L_:
             fetch.append([e.entry, ml])
         for a, nm in rel[:3]:
-            fetch += [[a, ml], [max(0, a - 2), ml]]
+            # the slot itself and every address less than a window before it
+            fetch += [[a, ml]] + [[a - k, ml] for k in range(1, ml) if a - k >= 0]
+        for p in L_[:3]:
+            for end in {p["vaddr"] + p["filesz"], p["vaddr"] + p["memsz"]}:
+                fetch += [[end - k, ml] for k in range(1, ml) if end - k >= p["vaddr"]]
         arm = loader == "linux32/arm"
         req = {"op": "load.elf", "fix": "repaired",
                "cfg": {"ps": ps, "ptr": ptr, "top": top, "aslr": aslr, "bare": False, "thumb": arm},
@@ -307,6 +364,11 @@ class Runner(object):
                 self.violation("elf", "rejected", loader, "%s: load_program returns no task for an image a kernel maps" % loader,
                                case, None, "task", "task", "Amoco.Loader.Props.elf_image")
             else:
+                if L is not None:
+                    # the code maps an image the model rejects: what it mapped must still be what the file says
+                    iso = O.elf_isolated(data, e, ps, stack)
+                    self.judge_bytes("elf", loader, case, L, names, O.Image(O.elf_facts(data, e, ptr, [], only=iso)),
+                                     "Amoco.Loader.Props.elf_image")
                 self.broken("accept/reject:elf", case, "task" if L else None, "task" if model["task"] else None,
                             "correspondence (does the loader produce a task)")
             return
@@ -321,10 +383,18 @@ class Runner(object):
                 ck.count("elf.dynamic-table-differs-from-sections")
             else:
                 ck.count("elf.dynamic-table-agrees")
-        facts = O.elf_facts(data, e, ptr, slots)
+        if loadable:
+            facts, judged = O.elf_facts(data, e, ptr, slots), True
+        else:
+            # outside the theorem's hypothesis the segments that no later block and no stack page touches are still
+            # determined by the file alone
+            iso = O.elf_isolated(data, e, ps, stack)
+            facts, judged = O.elf_facts(data, e, ptr, slots, only=iso), bool(iso)
+            if iso:
+                ck.count("elf.not-loadable.isolated-segments-judged", len(iso))
         # ARM ELF: an odd e_entry is a Thumb entry point at the even address
         entry = (e.entry & ~1) if arm and e.entry < (1 << 32) else e.entry
-        ok = self.compare("elf", loader, case, L, names, model, ranges, fetch, facts, entry, 8 * ptr, loadable,
+        ok = self.compare("elf", loader, case, L, names, model, ranges, fetch, facts, entry, 8 * ptr, judged,
                           "Amoco.Loader.Props.elf_image", req=req)
         kinds = (meta or {}).get("kinds", [])
         nontrivial = loadable and (len(L_) > 1 or any(p["memsz"] > p["filesz"] for p in L_) or bool(slots))
@@ -364,7 +434,7 @@ class Runner(object):
             if s["rawsize"] and s["ch"] != 0x800:
                 fetch.append([a + r.randrange(0, min(s["rawsize"], max(1, s["vsize"]))), ml])
         for a, nm in imports[:2]:
-            fetch += [[a, ml], [max(0, a - 3), ml]]
+            fetch += [[a, ml]] + [[a - k, ml] for k in range(1, ml) if a - k >= 0]
         fetch.append([p.base + p.entry_rva, ml])
         req = {"op": "load.pe", "fix": "repaired", "cfg": {"ps": ps, "ptr": ptr, "top": top, "aslr": False, "bare": False},
                "file": data.hex(), "base": p.base, "salign": p.salign,
@@ -638,6 +708,11 @@ def corpus(run):
             # clobbering layout (later page start inside the earlier segment, other file page): not LoadableOK
             C.append((elf(machine, x64, be, ps, [dict(offset=0, vaddr=4 * u, filesz=u // 2, memsz=u // 2),
                                                   dict(offset=2 * u + u // 2 + 3, vaddr=4 * u + u // 2 + 3, filesz=9, memsz=9)]), ps, "clobber"))
+            # unaligned segment (p_align 1): file offset and address differ modulo the page; with a zero-filled tail,
+            # and one whose in-page address offset is larger than that of the file offset
+            C.append((elf(machine, x64, be, ps, [dict(offset=0, vaddr=4 * u, filesz=u // 2, memsz=u // 2),
+                                                  dict(offset=u + 0x15, vaddr=8 * u + 0x13, filesz=0x21, memsz=0x30, align=1)]), ps, "unaligned-offset"))
+            C.append((elf(machine, x64, be, ps, [dict(offset=2 * u + 5, vaddr=6 * u + 0x2b, filesz=u + 3, memsz=u + 3, align=1)]), ps, "unaligned-offset-2"))
             # pure bss segment; unaligned first segment
             C.append((elf(machine, x64, be, ps, [dict(offset=3, vaddr=4 * u + 3, filesz=u // 4, memsz=u // 4),
                                                   dict(offset=u, vaddr=9 * u, filesz=0, memsz=u + 1)]), ps, "pure-bss"))
